@@ -31,7 +31,9 @@ def plan(pid, tier, seed):
         "harness": "session",
         "needs_coca": True,
         "mc": mc,
-        "gen": [],
+        # longer sessions than TLC can enumerate: simulated behaviours of the same Machine (8 commands, three projects)
+        "gen": [{"module": "X10Session", "cfg": "X10Session_Sim.cfg", "simulate": 40 if quick else 600, "depth": 20, "workers": 1,
+                 "timeout": 300, "sample": 25 if quick else 400}],
         "rand": 14,       # the harness's fixed sessions, once through the binary and once through the root command
         "trace": TRACE,
         "run_timeout": 6000,
